@@ -77,6 +77,8 @@ def run(F, R):
     # Q9: the stocked queues run in the negotiated modes (C08.H3)
     from .C08 import queue_modes_rule
     queue_modes_rule(F, R, M, 'Q9', ['device::input', 'device::sound', 'device::socket'])
+    # Q10: delivered events are what the device wrote: the notification-type decoding table agrees with the enum's codes
+    decode_tables_rule(F, R, 'Q10', ['device::sound', 'device::input', 'device::socket'])
 
 
 def buffer_slot_terms(t):
